@@ -151,6 +151,13 @@ fn candidates(w: &World, p: &Plan) -> Vec<(World, Plan)> {
         }
     }
     for i in 0..w.files.len() {
+        if w.files[i].bom {
+            let mut c = w.clone();
+            c.files[i].bom = false;
+            out.push((c, p.clone()));
+        }
+    }
+    for i in 0..w.files.len() {
         if w.files[i].tab_tags {
             let mut c = w.clone();
             c.files[i].tab_tags = false;
